@@ -517,6 +517,7 @@ type T struct {
 	refDraws []any
 	mu       sync.RWMutex
 	failed   stopTest
+	parent   *T // set for the T passed to a Custom generator function
 }
 
 func newT(tb tb, s bitStream, tbLog bool, rawLog *log.Logger, refDraws ...any) *T {
@@ -777,6 +778,10 @@ func (t *T) fail(now bool, msg string) {
 	defer t.mu.Unlock()
 
 	t.failed = stopTest(msg)
+	if t.parent != nil {
+		// the test case owns the failure, not the short-lived T of a Custom generator function
+		t.parent.fail(false, msg)
+	}
 	if now {
 		panic(t.failed)
 	}
